@@ -234,8 +234,9 @@ class CronCondition(TriggerCondition[CronContext]):
 
         # Check if current timestamp exactly matches a scheduled time
         if croniter.match(self.cron_expression, context.timestamp):
-            # Exact match - time difference is 0
-            time_diff_seconds = 0.0
+            # Inside a scheduled minute: offset from the start of that minute
+            scheduled = context.timestamp.replace(second=0, microsecond=0)
+            time_diff_seconds = (context.timestamp - scheduled).total_seconds()
         else:
             # Get previous scheduled time and calculate difference
             prev_time = cron.get_prev(datetime)
